@@ -205,6 +205,22 @@ func genBody(rt *rapid.T, class string, small bool) []byte {
 	}
 }
 
+// genXBody: body of a combined body+xattr write: mostly a JSON object (what Sync Gateway writes),
+// sometimes another JSON value, bytes that are not JSON, or an empty (non-nil) body - the entry
+// points take []byte and store it as it is.
+func genXBody(rt *rapid.T, small bool) []byte {
+	switch k := rapid.IntRange(0, 19).Draw(rt, "xbody.kind"); {
+	case k <= 15 || jsonBodyOverride != nil:
+		return genBody(rt, "obj", small)
+	case k == 16:
+		return genBody(rt, "json", small)
+	case k == 17:
+		return pick(rt, [][]byte{[]byte("{not json}"), {0, 1, 0xff, 'r'}, []byte("plain")}, "xbody.raw")
+	default:
+		return []byte{}
+	}
+}
+
 var sysXattrs = []string{"_sync", "_vv", "_mou"}
 var userXattrs = []string{"user", "u2"}
 var badXattrNames = []string{"a.b", "$doc", "x[0]", "]"}
@@ -645,7 +661,7 @@ func genOp1(rt *rapid.T, w *World, pr *Profile) Op {
 				op.X = genXattrSet(rt, 1, 2, false)
 			}
 		} else if kind == "WriteResurrectionWithXattrs" || chance(rt, 70, "wx.body") {
-			op.Body = genBody(rt, "obj", small)
+			op.Body = genXBody(rt, small)
 		}
 		if kind == "WriteResurrectionWithXattrs" && bad && chance(rt, 30, "wr.nobody") {
 			op.Body = nil
@@ -673,7 +689,7 @@ func genOp1(rt *rapid.T, w *World, pr *Profile) Op {
 			op.X = genXattrSet(rt, 1, 2, false)
 		}
 		if !op.Tomb && (!p.HasBody() || chance(rt, 70, "wu.body")) {
-			op.Body = genBody(rt, "obj", small)
+			op.Body = genXBody(rt, small)
 		}
 		if chance(rt, 25, "wu.del") {
 			op.XDel = genXattrDel(rt, p, 1, 2)
@@ -694,7 +710,7 @@ func genOp1(rt *rapid.T, w *World, pr *Profile) Op {
 	case "SetWithMeta", "DeleteWithMeta":
 		op.Cas = genCas(rt, map[string]int{"current": 60, "zero": 15, "prev": 10, "never": 10, "other": 5})
 		op.Exp = pick(rt, []ExpSpec{{Kind: "zero"}, {Kind: "abs", V: 7200}, {Kind: "rel", V: 90000}}, "meta.exp")
-		op.MetaCas = weighted(rt, map[string]int{"above": 60, "below": 20, "between": 20}, "meta.newcas")
+		op.MetaCas = weighted(rt, map[string]int{"above": 50, "below": 20, "between": 20, "future": 12}, "meta.newcas")
 		op.X = genXattrSet(rt, 0, 2, false)
 		if kind == "SetWithMeta" {
 			op.JSON = rapid.Bool().Draw(rt, "meta.json")
